@@ -32,6 +32,8 @@ inductive Op where
   | get               -- `h := getWaitCh()`; the handle is kept
   | bcast             -- `broadcast()`
   | set (v : Nat)     -- `x = v`
+  | panic             -- the body panics here (last statement); the caller recovers. No effect on the
+                      -- guarded state: the library releases the mutex in a deferred call
 deriving DecidableEq, Repr, Hashable
 
 abbrev Prog := List Op
@@ -84,6 +86,7 @@ def exec : Prog → Nat → Bcast → Nat × Bcast × List Nat
     (o.1, o.2.1, bc.getWaitCh.2 :: o.2.2)
   | .bcast :: r, x, bc => exec r x bc.broadcast
   | .set v :: r, _, bc => exec r v bc
+  | .panic :: r, x, bc => exec r x bc
 
 /-- the body calls `broadcast()` -/
 def Prog.hasBcast : Prog → Bool
@@ -98,6 +101,7 @@ def laterBcast : Prog → Nat → Bool
   | .get :: r, k+1 => laterBcast r k
   | .bcast :: r, k => laterBcast r k
   | .set _ :: r, k => laterBcast r k
+  | .panic :: r, k => laterBcast r k
 
 def numGets : Prog → Nat
   | [] => 0
@@ -340,11 +344,12 @@ def parseNats : List String → Option (List Nat)
   | [] => some []
   | x :: xs => do let n ← x.toNat?; let r ← parseNats xs; pure (n :: r)
 
-/-- program tokens: `g`, `b`, `s <v>` -/
+/-- program tokens: `g`, `b`, `s <v>`, `x` -/
 def parseProg : List String → Option Prog
   | [] => some []
   | "g" :: r => do pure (.get :: (← parseProg r))
   | "b" :: r => do pure (.bcast :: (← parseProg r))
+  | "x" :: r => do pure (.panic :: (← parseProg r))
   | "s" :: v :: r => do pure (.set (← v.toNat?) :: (← parseProg r))
   | _ => none
 
@@ -360,6 +365,10 @@ def Obs.parse : List String → Option Obs
   | "inv" :: t :: "tryhold" :: ps => do pure (.invHold (← t.toNat?) .try (← parseProg ps))
   | "inv" :: t :: "mhold" :: ps => do pure (.invHold (← t.toNat?) .maybe (← parseProg ps))
   | ["ret", t, "hold"] => do pure (.retHold (← t.toNat?) .hold true)
+  -- a body that panicked (program ending in `x`): the call is over once the caller has recovered
+  | ["ret", t, "hold", "panic"] => do pure (.retHold (← t.toNat?) .hold true)
+  | ["ret", t, "tryhold", "panic"] => do pure (.retHold (← t.toNat?) .try true)
+  | ["ret", t, "mhold", "panic"] => do pure (.retHold (← t.toNat?) .maybe true)
   | ["ret", t, "tryhold", "true"] => do pure (.retHold (← t.toNat?) .try true)
   | ["ret", t, "tryhold", "false"] => do pure (.retHold (← t.toNat?) .try false)
   | ["ret", t, "mhold"] => do pure (.retHold (← t.toNat?) .maybe true)
